@@ -100,16 +100,19 @@ Theorem c38_duration : forall (std_parse : bytes -> outcome Z) (fmt : Z -> bytes
 Proof. exact duration_roundtrip. Qed.
 Print Assumptions c38_duration.
 
-(* timestamps, given the law of the layout in use; the layout regenerated from source is the
+(* timestamps: only values in years 0001..9999 with normalised nanos are returned (CheckValid), and
+   for those, given the law of the layout in use; the layout regenerated from source is the
    nanosecond one (with the seconds-only layout the law is false for sub-second values) *)
 Theorem c38_timestamp : forall (quote : bytes -> bytes) (ujson : bytes -> option ts) (fmt : ts -> bytes),
-  (forall s t, ujson s = Some t -> fmt t <> [] /\ ujson (quote (fmt t)) = Some t) ->
+  (forall s t, ujson s = Some t -> ts_check_valid t = true -> fmt t <> [] /\ ujson (quote (fmt t)) = Some t) ->
   forall s,
     parse_timestamp quote ujson s <> Panic /\
+    (forall t, parse_timestamp quote ujson s = Ok (Some t) -> ts_check_valid t = true) /\
     forall ot, parse_timestamp quote ujson s = Ok ot ->
                parse_timestamp quote ujson (marshal_timestamp fmt ot) = Ok ot.
 Proof.
-  intros q u f H s. split; [apply timestamp_total|]. intros ot Hot. eapply timestamp_roundtrip; eauto.
+  intros q u f H s. split; [apply timestamp_total|]. split; [intros t Ht; eapply timestamp_valid; eauto|].
+  intros ot Hot. eapply timestamp_roundtrip; eauto.
 Qed.
 Print Assumptions c38_timestamp.
 
